@@ -9,7 +9,7 @@ from concurrent.futures import ThreadPoolExecutor
 
 from . import findings, symx
 
-EVID = "/verif/evidence" if not symx.SHADOW else os.path.join(symx.BUILD, "evidence")
+EVID = os.environ.get("VERIF_EVID") or ("/verif/evidence" if not symx.SHADOW else os.path.join(symx.BUILD, "evidence"))
 PY = "python3-vt"
 KEYWORDS = ["BUY", "SELL", "DIVIDEND", "ACCUMULATION", "CAPRETURN", "SPLIT", "UNSPLIT"]
 
